@@ -637,3 +637,10 @@ M("m123", "C20", "R20.11", VI, "        new_values = self._unbatch_results(padde
   "        new_values = self._unbatch_results(padded_batched_values)\n        return new_values.astype(values.dtype)\n",
   "sweep result cast to the dtype of the incoming estimates (positive example of the zero-count rule)")
 M("m124", "C20", "R20.11", RVI, "        self.gain = 0.0\n", "        self.gain = jnp.zeros((), dtype=jnp.float32)\n", "RVI gain held in float32")
+M("m125", "C09", "R9.6", RVI, "        self.gain = 0.0\n", "        self.gain = 0\n",
+  "gain template is an int: Orbax restores the saved float gain truncated (seeded C09c)")
+M("m126", "C10", "R10.7", RVI, "        self.gain = 0.0\n", "        self.gain = 0\n", "same, filed under C10")
+M("m127", "C09", "R9.6", PVI, "self.value_history = np.zeros((self.period + 1, self.problem.n_states))",
+  "self.value_history = np.zeros((self.period + 1, self.problem.n_states), dtype=np.float32)",
+  "history template float32: restored history loses precision")
+B("b41", RVI, "        self.gain = 0.0\n", "        self.gain = float(0)\n", "float(...) initialiser is still a float template")
